@@ -44,7 +44,7 @@ Fixpoint wf_tgt (t : tgt) : bool :=
   | TSlice a lo hi => wf_tgt a && (lo <=? hi) && (hi <=? tlen a)
   | TPart a _ _ st => wf_tgt a && (1 <=? st)
   | TCat ps => forallb wf_tgt ps
-  | TSwitch w es => forallb (fun e => wf_tgt e && (tlen e =? w)) es
+  | TSwitch w es => forallb (fun e => wf_tgt e && (tlen e <=? w)) es
   end.
 
 (* _nir.Assignment kept by a NetlistDriver: signal (id, width), start, len(value) *)
@@ -79,7 +79,9 @@ Fixpoint emit_assign (t : tgt) (start len : nat) : list arec :=
                   if width <=? s0 then []
                   else emit_assign a s0 (if width <=? s0 + len then width - s0 else len))
                (seq 0 num_cases)
-  | TSwitch _ es => flat_map (fun e => emit_assign e start (Nat.min len (tlen e))) es
+  | TSwitch _ es =>
+      (* `if lhs_start >= len(val): continue`, `rhs[:len(val) - lhs_start]` (repo 961f42e) *)
+      flat_map (fun e => if tlen e <=? start then [] else emit_assign e start (Nat.min len (tlen e - start))) es
   end.
 
 (* emit_lhs (instance outputs, read-port data, IO buffer `i`): Signal / Concat / Slice / u,s only *)
